@@ -353,11 +353,13 @@ def generated_streams(ck, name, maxstream=3, faults=True, shards=NCPU):
 
 
 def streams(ck, name, family, scale=1, faults=False, maxstream=4, sizes="1,2,3", shards=NCPU,
-            replay_file="", stage="B3-stream", work=False):
+            replay_file="", stage="B3-stream", work=False, long=False):
     """B3 for streams: every recorded run of the real stream search/replacement is
     replayed through ACStream's actions by TLC (TraceStream.tla)."""
     wd = os.path.join(WORK, "stream_" + name) if replay_file else workdir("stream_" + name)
     prefix = os.path.join(wd, "trace")
+    if long:
+        os.environ["ACVERIF_STREAM_LONG"] = "1"     # long patterns (8 KiB .. 32 KiB) on the default buffer
     if work:
         os.environ["ACVERIF_STREAM_WORK"] = "1"     # the transition counter of every run is recorded
     try:
@@ -367,6 +369,7 @@ def streams(ck, name, family, scale=1, faults=False, maxstream=4, sizes="1,2,3",
                          (["--replay-file", replay_file] if replay_file else []))
     finally:
         os.environ.pop("ACVERIF_STREAM_WORK", None)
+        os.environ.pop("ACVERIF_STREAM_LONG", None)
     # two trace specifications read every shard: TraceStreamContract decides (the observable
     # contract of C07/C08/C18), TraceStream replays the run through ACStream's actions; a run only
     # the latter cannot explain is reported as drift (the implementation left the model's shape)
